@@ -461,7 +461,7 @@ func c11GenAlloc(t *rapid.T, npop int) c10SeedAlloc {
 
 func c11GenRec(t *rapid.T, p, npop int) (c10SeedRec, c10PodSpec) {
 	r := c10SeedRec{P: p}
-	r.Phase = rapid.SampledFrom([]string{"", "Bind", "Unbind", "Unbind", "Unbind", "Unbind", "Binding", "Detaching", "Deleting"}).Draw(t, "phase")
+	r.Phase = rapid.SampledFrom([]string{"", "Bind", "Unbind", "Unbind", "Unbind", "Unbind", "Binding", "Binding", "Detaching", "Detaching", "Deleting"}).Draw(t, "phase")
 	r.Pod = rapid.SampledFrom([]string{"absent", "absent", "absent", "alive", "exited", "terminating"}).Draw(t, "pod")
 	r.UIDMatch = rapid.Bool().Draw(t, "uidmatch")
 	na := rapid.IntRange(1, 3).Draw(t, "nallocs")
@@ -506,14 +506,25 @@ func c11GenRetention(t *rapid.T) c10Scenario {
 		s.SeedRecs = append(s.SeedRecs, r)
 		s.Pods = append(s.Pods, ps)
 	}
-	nops := rapid.IntRange(1, 4).Draw(t, "nops")
-	for i := 0; i < nops; i++ {
-		op := c10Op{K: rapid.SampledFrom([]string{"gccr", "gccr", "gccr", "gone", "exit", "delete", "create"}).Draw(t, "k")}
+	// histories mix collector passes, pod events and the two reconcilers (a record that is being
+	// processed - Binding, Detaching - must keep being observed while its pod exists, then reach
+	// Unbind through ReconcilePod/ReconcilePodENI once the pod is gone, then be judged by the collector)
+	opGen := rapid.Custom(func(t *rapid.T) c10Op {
+		op := c10Op{K: rapid.SampledFrom([]string{"gccr", "gccr", "gccr", "gccr", "gone", "gone", "exit", "delete", "create", "rr", "rr", "rpod", "reni"}).Draw(t, "k")}
 		op.P = rapid.IntRange(0, n-1).Draw(t, "p")
 		if op.K == "gccr" && rapid.IntRange(0, 9).Draw(t, "af?") == 0 {
 			op.AF = uint16(rapid.SampledFrom([]int{c10AFGetPod, c10AFListENI, c10AFStatusUpdate, c10AFStatusPatch, c10AFGetNode}).Draw(t, "af"))
 		}
-		s.Ops = append(s.Ops, op)
+		return op
+	})
+	s.Ops = rapid.SliceOfN(opGen, 1, 8).Draw(t, "ops")
+	if rapid.IntRange(0, 2).Draw(t, "script") == 0 {
+		// observe -> pod leaves -> controllers finish the transition -> collector judges
+		p := rapid.IntRange(0, n-1).Draw(t, "scriptp")
+		leave := rapid.SampledFrom([]string{"gone", "gone", "exit"}).Draw(t, "leave")
+		for _, k := range [][]string{{"gccr", leave, "rr", "gccr"}, {"gccr", "gccr", leave, "rpod", "reni", "gccr"}, {"gccr", leave, "rr", "rr", "gccr"}}[rapid.IntRange(0, 2).Draw(t, "scriptk")] {
+			s.Ops = append(s.Ops, c10Op{K: k, P: p})
+		}
 	}
 	if s.Ops[len(s.Ops)-1].K != "gccr" {
 		s.Ops = append(s.Ops, c10Op{K: "gccr"})
